@@ -340,4 +340,7 @@ pub fn run(ctx: &mut Ctx) {
         }
     });
     ctx.require(&r, &["round_trip_ok"]);
+
+    // hidden state: every ordered pair of parse calls on a fresh thread against the lone call
+    crate::histpairs::pairwise(ctx, "C06", "parse", crate::histpairs::calls_parse());
 }
